@@ -81,15 +81,56 @@ def lookupPower (tbl : List (List Nat × Int)) (k : List Nat) : Int :=
   | some e => e.2
   | none => 0
 
-def parseEnv : List String → Option Env
-  | [a, b, n, l, snd, src, slf, cid, tvp, mbt, vp] => do
+/-- `-` or `hex(text bytes):seconds|x,…`: what `optimize_timestamp` answers on the texts that occur in the program (`x`: it
+raises) — the instance of the model's parameter `Env.readTimestamp` for this run; a text that is not listed reads as "not a
+timestamp" -/
+def parseTimestamps (w : String) : Option (List (List Nat × Option Int)) :=
+  if w == "-" then some []
+  else (w.splitOn ",").mapM fun e =>
+    match e.splitOn ":" with
+    | [k, v] => do
+      let key ← (if k == "" then some [] else parseHex k)
+      if v == "x" then pure (key, none) else pure (key, some (← parseInt v))
+    | _ => none
+
+def lookupTimestamp (tbl : List (List Nat × Option Int)) (k : List Nat) : Option Int :=
+  match tbl.find? (fun e => e.1 == k) with
+  | some e => e.2
+  | none => none
+
+/-- `-` or `hex(key text):hex(signature text):hex(message):0|1,…`: what `Key.from_encoded_key(k).verify(s, m)` answers on the
+triples that occur in the program (1: it returns, 0: it raises `ValueError`) — the instance of the model's parameter
+`Hashes.checkSig` for this run; a triple that is not listed does not verify -/
+def parseSignatures (w : String) : Option (List ((List Nat × List Nat × List Nat) × Bool)) :=
+  if w == "-" then some []
+  else (w.splitOn ",").mapM fun e =>
+    match e.splitOn ":" with
+    | [k, s, m, v] => do
+      let key ← hexToString k
+      let sig ← hexToString s
+      let msg ← parseHex m
+      pure ((codes key, codes sig, msg), v == "1")
+    | _ => none
+
+def lookupSignature (tbl : List ((List Nat × List Nat × List Nat) × Bool)) (k s m : List Nat) : Bool :=
+  match tbl.find? (fun e => e.1 == (k, s, m)) with
+  | some e => e.2
+  | none => false
+
+def parseEnv13 : List String → Option Env
+  | [a, b, n, l, snd, src, slf, cid, tvp, mbt, vp, ts, sg] => do
     let tbl ← parseVotingPower vp
+    let tst ← parseTimestamps ts
+    let sgt ← parseSignatures sg
     pure { amount := ← parseInt a, balance := ← parseInt b, now := ← parseInt n, level := ← parseInt l,
            sender := codes (← hexToString snd), source := codes (← hexToString src),
            self := codes (← hexToString slf), chainId := codes (← hexToString cid),
            totalVotingPower := ← parseInt tvp, minBlockTime := ← parseInt mbt, votingPower := lookupPower tbl,
-           hashes := execHashes }
+           readTimestamp := lookupTimestamp tst, hashes := { execHashes with checkSig := lookupSignature sgt } }
   | _ => none
+
+def parseEnv (ws : List String) : Option Env :=
+  parseEnv13 (ws ++ List.replicate (13 - ws.length) "-")
 
 /-- `hash <blake2b|sha256|sha512|keccak|sha3> <hex>` -/
 def handleHash : List String → String
@@ -106,7 +147,7 @@ def handleHash : List String → String
     | none => "bad-op"
   | _ => "bad-op"
 
-/-- `impl|spec <fuel> | <amount balance now level sender source self chain_id total_voting_power min_block_time voting_power> | <program>` -/
+/-- `impl|spec <fuel> | <amount balance now level sender source self chain_id total_voting_power min_block_time voting_power [timestamp_texts [signature_checks]]> | <program>` -/
 def handle (line : String) : String :=
   match words line with
   | "hash" :: rest => handleHash rest
